@@ -46,6 +46,11 @@ pub struct FrameError { _p: u8 }
 pub struct IoError { _p: u8 }
 pub enum Error { Io(IoError), Frame(FrameError), FramingError, IdleTimeoutElapsed, Other }
 impl From<FrameError> for Error { #[verifier::external_body] fn from(e: FrameError) -> Self { Error::Frame(e) } }
+/// `?` on the frame encoder's error in start_send: `impl From<frames::Error> for transport::Error` maps it to Io / DecodeError / NotImplemented (here: Frame), never to FramingError (R16)
+pub trait ErrInto<T>: Sized { spec fn conv(self) -> T; fn err_into(self) -> (r: T) ensures r == self.conv(); }
+impl ErrInto<Error> for FrameError { open spec fn conv(self) -> Error { Error::Frame(self) } fn err_into(self) -> (r: Error) { Error::Frame(self) } }
+impl ErrInto<Error> for IoError { open spec fn conv(self) -> Error { Error::Io(self) } fn err_into(self) -> (r: Error) { Error::Io(self) } }
+impl ErrInto<Error> for Error { open spec fn conv(self) -> Error { self } fn err_into(self) -> (r: Error) { let e = self; assert(e == <Error as ErrInto<Error>>::conv(self)); e } }
 impl From<IoError> for Error { #[verifier::external_body] fn from(e: IoError) -> Self { Error::Io(e) } }
 pub struct FrameEncoder { pub max_frame_body_size: usize }
 impl FrameEncoder {
@@ -144,12 +149,13 @@ pub open spec fn added_items(o: Transport, f: Transport) -> Seq<Seq<u8>> { f.fra
 
 impl Transport {
 //@@ fn file=fe2o3-amqp/src/transport/mod.rs impl=`impl<Io> Sink<amqp::Frame> for Transport<Io, amqp::Frame> where Io: AsyncWrite + Unpin,` name=start_send
+//@@ qmark
 //@@ subst `mut self: std::pin::Pin<&mut Self>` => `&mut self` rule=R3
 //@@ subst `item: amqp::Frame` => `item: Frame` rule=R11
 //@@ subst `use std::pin::Pin;` => `` rule=R6
 //@@ subst `Pin::new(&mut self.framed_write)` => `&mut self.framed_write` rule=R3
 //@@ subst `amqp::FrameEncoder::new(` => `FrameEncoder::new(` rule=R11
-//@@ subst `.map_err(Into::into)` => `.map_err(|e: IoError| -> (o: Error) { Error::Io(e) })` rule=R17
+//@@ subst `.map_err(Into::into)` => `.map_err(|e: IoError| -> (o: Error) ensures o == Error::Io(e) { Error::Io(e) })` rule=R17
 //@@ subst `matches!(item.body, amqp::FrameBody::Transfer { .. })` => `frame_is_transfer(&item)` rule=optional-R11
 //@@ spec
     requires
@@ -161,6 +167,7 @@ impl Transport {
             && final(self).framed_write.items@.take(old(self).framed_write.items@.len() as int) =~= old(self).framed_write.items@,
         r is Ok ==> flat(added_items(*old(self), *final(self))) =~= wire(item),                                              // [C06.transport.no-loss] the length-delimited items written concatenate to exactly the encoded frame(s): nothing lost, duplicated or reordered
         r is Ok ==> (forall|i: int| 0 <= i < added_items(*old(self), *final(self)).len() ==> 0 < (#[trigger] added_items(*old(self), *final(self))[i]).len() <= old(self).framed_write.codec.max),   // [C06.transport.max-frame] every item (4-byte length prefix added by the codec) stays within the peer's max-frame-size, and no empty item (a bogus 4-byte frame) is ever written
+        r is Err && r->Err_0 is FramingError ==> !is_transfer(item) && wire(item).len() > old(self).framed_write.codec.max,   // [C06.transport.refused-only-if-too-large] a frame is refused as unsendable only when it is not a transfer and its encoding really exceeds the peer's max-frame-size: a performative that fits exactly is sent
         r is Ok && !is_transfer(item) ==> added_items(*old(self), *final(self)).len() == 1,                                  // [C06.transport.non-transfer-whole] only a transfer may continue in further frames: any other performative is written as ONE frame, or (when its encoding exceeds the peer's max-frame-size) not at all
         r is Ok ==> (forall|i: int| 0 <= i < added_items(*old(self), *final(self)).len() - 1 ==> (#[trigger] added_items(*old(self), *final(self))[i]).len() == old(self).framed_write.codec.max),   // [C06.transport.cut-points] all but the last item are exactly max long: with unit FRAMEENC's lemma_cut_points the cuts coincide with the frame boundaries of a split transfer
 //@@ entry
